@@ -39,7 +39,7 @@ BIG_DIV = 20000        # largest limit used on goals that may not terminate
 ROUT, RIN = "Rout", "Rin"
 MAXANS = 60
 PER_JOB = 400
-TMO_MS = 2500          # a limited query normally takes < 5 ms; the limit 10^6 on loop/0 about 100 ms
+TMO_MS = 1500          # a limited query normally takes < 5 ms; the limit 20000 on loop/0 a few ms
 WORKERS = 6
 _T0 = [0.0]
 
